@@ -63,6 +63,9 @@ func TestC03OnClient(t *testing.T) {
 			}
 			proxy.setDeposit(acct, deposit)
 		}
+		// the wallet may have asked the contract to release its deposit: until that is through, the proxy cannot
+		// name a balance for it (payment.ErrDepositTimelocked)
+		timeLocked := linked && rapid.IntRange(0, 5).Draw(rt, "depositTimeLocked") == 0
 		var min *big.Int
 		if rapid.IntRange(0, 5).Draw(rt, "minSet") > 0 {
 			min = genAmount(rt, "min")
@@ -79,6 +82,21 @@ func TestC03OnClient(t *testing.T) {
 		wantRefuse := !isHost && min != nil && total.Cmp(min) < 0
 		calls := rapid.IntRange(1, 3).Draw(rt, "calls")
 		outcome := "admitted"
+		if timeLocked {
+			proxy.locked = map[store.Account]bool{acct: true}
+			for k := 1; k <= calls; k++ {
+				err := mgr.OnClient(node)
+				// a client's balance cannot be judged (either answer is acceptable); a host, and anybody on a pool
+				// without a minimum, is not judged by its balance at all
+				if err != nil && (isHost || min == nil) {
+					rt.Fatalf("driver=%s host=%v min=%v: the node's deposit is time-locked on chain (no balance can be named); a host, or a node on a pool without a minimum, must not be refused over its balance: %v", driver, isHost, min, err)
+				}
+			}
+			rec.Case(fmt.Sprintf("onclient|%s|%v|locked|%v", driver, isHost, min != nil), min != nil, []string{"onclient", "onclient:time-locked-deposit", "onclient:driver:" + driver}, func() interface{} {
+				return map[string]interface{}{"level": "manager OnClient", "driver": driver, "host": isHost, "deposit": "time-locked", "min": fmt.Sprint(min)}
+			})
+			return
+		}
 		for k := 1; k <= calls; k++ {
 			err := mgr.OnClient(node)
 			desc := fmt.Sprintf("driver=%s host=%v linked=%v credit=%s deposit=%s min=%v, OnClient call %d of %d -> %v", driver, isHost, linked, credit, deposit, min, k, calls, err)
